@@ -110,6 +110,7 @@ type runtimeState struct {
 	forward  interface{} // engine panic raised in a non-main goroutine
 	nextChan int
 	preemptions int
+	fires int
 	running int32
 	log []string
 	sleep    []sleepEntry
@@ -163,10 +164,10 @@ func (rt *runtimeState) spawn(fr *frame, fn Value, args []Value) {
 	} else if c, ok := fn.(*Closure); ok {
 		g.fn = c.Fn.String()
 	}
-	rt.gs = append(rt.gs, g)
-	if len(rt.gs) > 24 {
+	if len(rt.gs) >= 24 {
 		ex.boundExceeded("more than 24 goroutines")
 	}
+	rt.gs = append(rt.gs, g)
 	rt.live++
 	go func() {
 		defer func() { rt.exited <- struct{}{} }()
@@ -456,6 +457,15 @@ func (rt *runtimeState) endPath(from *Goroutine, reason interface{}) {
 
 func (rt *runtimeState) deadlock(from *Goroutine) {
 	ex := rt.ex
+	if rt.fires >= ex.cfg.MaxTimerFires {
+		for _, t := range rt.timers {
+			if t.armed {
+				// not a deadlock: the bound on timer firings per path is exhausted
+				ex.report.addAssumption(fmt.Sprintf("executions with more than %d timer firings are not explored", ex.cfg.MaxTimerFires))
+				rt.endPath(from, pathEnd{"fire-bound"})
+			}
+		}
+	}
 	if rt.aborting && schedTrace {
 		fmt.Fprintf(os.Stderr, "DEADLOCK-WHILE-ABORTING %s\n", debug.Stack())
 	}
